@@ -121,6 +121,9 @@ thread_local! {
     pub static REPLY_ERRS: RefCell<Vec<String>> = const { RefCell::new(Vec::new()) };
 }
 
+/// C19 switches this on: the whole Env of every entry-point invocation goes to the verbatim log.
+pub static RECORD_ENV: std::sync::atomic::AtomicBool = std::sync::atomic::AtomicBool::new(false);
+
 pub fn take_reply_errs() -> Vec<String> {
     REPLY_ERRS.with(|t| std::mem::take(&mut *t.borrow_mut()))
 }
@@ -281,6 +284,9 @@ impl Puppet {
                 own_store.push((b"\xff<own bounded iteration disagrees with own full iteration at bound>".to_vec(), b.to_vec()));
                 break;
             }
+        }
+        if RECORD_ENV.load(std::sync::atomic::Ordering::Relaxed) {
+            REPLY_ERRS.with(|t| t.borrow_mut().push(format!("{:?} {:?}", kind, env)));
         }
         let bundle = make_bundle(&deps.as_ref(), &env, &watch);
         let rec = TraceRec {
